@@ -122,8 +122,15 @@ def run(ctx):
                  for f in sorted(glob.glob(os.path.join(common.REPO, "tests", "*.sam")))}
     nrepo_occ, nrepo_mods = 0, 0
     if repo_mods:
-        ans = run_impl(["qmulti " + hexs(json.dumps(repo_mods))], PROP)[0]
-        parts = [x.split(" :: ", 1) for x in ans.split(" ||| ")] if " :: " in ans else []
+        names = sorted(repo_mods)
+        k = 6
+        groups = [names[i::k] for i in range(k)]
+        lines_m = ["qmulti " + hexs(json.dumps(dict(repo_mods, __only__=",".join(g)))) for g in groups if g]
+        from concurrent.futures import ThreadPoolExecutor
+        with ThreadPoolExecutor(max_workers=k) as ex:      # one process per group; each loads the whole project
+            answers = list(ex.map(lambda l: run_impl([l], PROP)[0], lines_m))
+        ans = " ||| ".join(a for a in answers if a)
+        parts = sorted([x.split(" :: ", 1) for x in ans.split(" ||| ") if " :: " in x])
         if not parts:
             ctx.violation("query sweep over the repository's tests/*.sam crashed: " + ans[:160], {"protocol": "qmulti", "impl": ans[:2000]})
         good = [(n, r) for n, r in parts if "=> " in r]
